@@ -92,8 +92,8 @@ theorem C18_cache_key_prefix_refuted :
 example : SessInv (some 3) (openHeap ['u'] [] (some 3) ['s'] [['i']] [(['a'], [2], true)]) :=
   C18_open_session _ _ _ _ _ _
 example : (run (openHeap ['u'] [] (some 3) ['s'] [['i']] [(['a'], [2], true)])
-    [.aget 1 [Idx.int 0], .fattr 2 ['m'], .fcall 3 ['a'], .rget 4, .rget 4]).log.map (·.1)
-    = [some 3, some 3, some 3] := by decide
+    [.aget 1 [Idx.int 0], .fattr 2 ['m'], .fcall 3 ['a'], .rget 4 false, .rget 4 true, .rget 4 true]).log.map (·.1)
+    = [some 3, some 3, some 3, some 3] := by decide
 example : underBase (some exBase) exInside = true ∧ underBase (some exBase) exSibling = false := by decide
 
 end Pydap.C18
